@@ -291,6 +291,14 @@ def directed() -> List[Dict[str, Any]]:
                           {"s": "add", "t": {"k": "fut", "a": "A1", "i": {"k": "reg", "h": "G1"}}, "o": c(5), "mod": -1}, F,
                           {"s": "loop", "start": 0, "stop": 2, "step": 1, "form": "ctx", "body": [{"s": "add", "t": {"k": "fut", "a": "A1", "i": {"k": "reg", "h": "G1"}}, "o": lv(1), "mod": -1}]}, F,
                           RA("A1")], "meas": [0]})
+    # an array entry indexed by a register outcome; the same register future is measured into again (other outcome) between two
+    # uses of the entry
+    for m1, m2 in ((1, 0), (0, 1), (1, 1)):
+        e_ = {"k": "fut", "a": "A1", "i": {"k": "reg", "h": "F1"}}
+        D.append({"history": [A("A1", [10, 20, 30]), {"s": "qubit", "h": "Q1"}, {"s": "meas", "q": "Q1", "inplace": False, "into": {"k": "newreg", "h": "F1"}},
+                              {"s": "add", "t": e_, "o": c(5), "mod": -1}, {"s": "qubit", "h": "Q2"},
+                              {"s": "meas", "q": "Q2", "inplace": False, "into": {"k": "reg", "h": "F1"}}, {"s": "add", "t": e_, "o": c(7), "mod": -1}, F, RA("A1")],
+                  "meas": [m1, m2]})
     # in-place measurement keeps the qubit
     D.append({"history": [A("A1", [0, 0]), {"s": "qubit", "h": "Q1"}, {"s": "gate", "g": "x", "qs": ["Q1"]},
                           {"s": "meas", "q": "Q1", "inplace": True, "into": fut("A1", c(0))}, {"s": "gate", "g": "h", "qs": ["Q1"]},
